@@ -407,6 +407,11 @@ fn constructors(ctx: &mut Ctx, r: &mut Rng) {
     }
     let _ = no_panic(ctx, "get_calendar_by_name", guarded(|| get_calendar_by_name(&s).is_ok()), || json!({"name": s}));
     let _ = no_panic(ctx, "get_roll(Unspecified)", guarded(|| get_roll(2000 + r.range_i(0, 100) as i32, 1 + r.below(12) as u32, &RollDay::Unspecified {}).is_err()), || json!({}));
+    // the Python-facing constructors (Dual.vars_from / Dual2.vars_from, to_dual / to_dual2) with consistent and
+    // inconsistent array lengths: the core's answer or the core's refusal, never an abort
+    if r.chance(0.3) {
+        super::pylayer::dual_conversions(ctx, "C20", r);
+    }
 }
 
 // ------------------------------------------------------------------ (b) date arithmetic is total
@@ -1259,6 +1264,8 @@ impl Prop for C20 {
         for c in ["FXRates::update:ok", "FXRates::update:err", "update-pair:quoted", "update-pair:inverted-quote", "update-pair:member-currencies", "update-pair:foreign-currency", "update-pair:empty-list"] {
             v.push(c.to_string());
         }
+        v.push("py:vars_from:wrong-lengths".into());
+        v.push("py:vars_from:consistent-lengths".into());
         v.push("sweep:all-256-day-counts".into());
         v.push("sweep:add_months-grid".into());
         for s in ["spread", "all-repeated", "out-of-domain", "end-points-only", "random"] {
